@@ -1,14 +1,16 @@
-"""C08 - the JSON form has the documented shape (claimed) and round-trips (NOT claimed by this check, see outside_the_claim).
+"""C08 - the JSON form has the documented shape and round-trips (both decided at the serde data-model level).
 
 The MIR of the derived Serialize impls (feature serde) of PortableRegistry and every nested type is executed on a symbolic registry with a
 tree-building model of serde's Serializer / SerializeStruct (keys, variant tags, skip_field, transparency are read from the derive's real
-output); the resulting document is compared with a reference document built from the property text.
+output); the resulting document is compared with a reference document built from the property text.  Round trip: the MIR of the derived
+Deserialize impls (field-identifier visitors, visit_map loops, missing_field defaults, enum access) is then executed on that document
+with models of Deserializer / MapAccess / EnumAccess walking the tree: the result must be Ok and equal to the original registry.
 """
 import z3, json
 from lib.common import *
 from lib.regmodel import *
 from mirsym.engine import *
-from mirsym.models import deref, payload, seq_elems, is_variant, res_ok
+from mirsym.models import deref, payload, seq_elems, is_variant, res_ok, res_err
 from mirsym.codec_models import CODEC_SUBST
 
 PRIM_TAGS = ['bool', 'char', 'str', 'u8', 'u16', 'u32', 'u64', 'u128', 'u256', 'i8', 'i16', 'i32', 'i64', 'i128', 'i256']
@@ -101,6 +103,158 @@ SERDE_MODELS = [
 ]
 
 
+# ----------------------------------------------------------------------------- Deserialize side: a Deserializer / MapAccess / EnumAccess walking the document tree
+class JDe:
+    """Deserializer over one node of the document produced by the Serialize run"""
+    def __init__(self, j): self.j = j
+
+
+class MapAcc:
+    def __init__(self, items): self.items, self.i, self.pending = list(items), 0, None
+
+
+class EnumAcc:
+    def __init__(self, tag, body): self.tag, self.body = tag, body
+
+
+DE_ERR = Tok('serde-error')
+
+
+def last_generic(c):
+    d, k = 0, len(c) - 1
+    while k >= 0:
+        ch = c[k]
+        if ch == '>' and c[k - 1] not in '-=': d += 1
+        elif ch == '<':
+            d -= 1
+            if d == 0: break
+        k -= 1
+    from mirsym.mir import split_top
+    return split_top(c[k + 1:-1])
+
+
+def visitor_fn(M, vtype, meth):
+    nz = lambda t: t.replace('PortableForm', 'T').replace(' ', '')
+    c = [f for f in M.fns.values() if f.kind == 'fn' and f.args and nz(f.args[0][1]) == nz(vtype) and re.sub(r'#\d+$', '', f.name).endswith('::' + meth)]
+    if len(c) != 1: raise Inconclusive('visitor method %s of %s: %d candidates' % (meth, vtype[-60:], len(c)))
+    return c[0]
+
+
+def de_value(M, ty, j, fr):
+    return M.call('<%s as Deserialize<\'_>>::deserialize::<__D>' % ty, [JDe(j)], fr)
+
+
+def m_de_struct(M, a, c, fr):
+    d = a[0]; vtype = last_generic(c)[-1]
+    if not isinstance(d, JDe): raise Inconclusive('deserializer is %r' % (d,))
+    if d.j[0] == 'obj': return M.run_fn(visitor_fn(M, vtype, 'visit_map'), [a[3], MapAcc(d.j[1])])
+    return res_err(DE_ERR)
+
+
+def m_de_identifier(M, a, c, fr):
+    d = a[0]; vtype = last_generic(c)[-1]
+    if not isinstance(d, JDe) or d.j[0] != 'str' or not isinstance(d.j[1], str): raise Inconclusive('identifier from %r' % (d,))
+    return M.run_fn(visitor_fn(M, vtype, 'visit_str'), [a[1], ValSlice([bv(b, 8) for b in d.j[1].encode()], True)])
+
+
+def m_map_next_key(M, a, c, fr):
+    m = deref(M, a[0]); kty = last_generic(c)[-1]
+    if m.i >= len(m.items): return res_ok(opt_none_())
+    k, v = m.items[m.i]; m.i += 1; m.pending = v
+    r = de_value(M, kty, ('str', k), fr)
+    if is_variant(M, r, 1, 'next_key'): return r
+    return res_ok(opt_some_(payload(r, 0)[0]))
+
+
+def m_map_next_value(M, a, c, fr):
+    m = deref(M, a[0]); vty = last_generic(c)[-1]
+    if vty.endswith('IgnoredAny'): return res_ok([])
+    return de_value(M, vty, m.pending, fr)
+
+
+def opt_none_():
+    from mirsym.models import opt_none; return opt_none()
+def opt_some_(v):
+    from mirsym.models import opt_some; return opt_some(v)
+
+
+def m_missing_field(M, a, c, fr):
+    ty = last_generic(c)[1] if len(last_generic(c)) >= 2 else ''
+    if re.match(r'^(std::option::)?Option<', ty): return res_ok(opt_none_())
+    return res_err(DE_ERR)
+
+
+def m_de_num(M, a, c, fr):
+    d = a[0]; w = {'u8': 8, 'u16': 16, 'u32': 32, 'u64': 64}[re.match(r'<(\w+) as', c).group(1)]
+    if d.j[0] != 'num' or not z3.is_bv(d.j[1]): return res_err(DE_ERR)
+    v = d.j[1]
+    if v.size() != w: raise Inconclusive('number of %d bits read as %d bits' % (v.size(), w))
+    return res_ok(v)
+
+
+def m_de_string(M, a, c, fr):
+    d = a[0]
+    return res_ok(d.j[1]) if d.j[0] == 'str' else res_err(DE_ERR)
+
+
+def m_de_vec(M, a, c, fr):
+    d = a[0]; et = re.fullmatch(r"<Vec<(.+)> as Deserialize<'_>>::deserialize(::<.*>)?", c).group(1)
+    if d.j[0] != 'arr': return res_err(DE_ERR)
+    out = []
+    for x in d.j[1]:
+        r = de_value(M, et, x, fr)
+        if is_variant(M, r, 1, 'vec.elem'): return r
+        out.append(payload(r, 0)[0])
+    return res_ok(VecV(bv(len(out), 64), out))
+
+
+def m_de_option(M, a, c, fr):
+    d = a[0]; et = re.fullmatch(r"<(?:std::option::)?Option<(.+)> as Deserialize<'_>>::deserialize(::<.*>)?", c).group(1)
+    if d.j[0] == 'null': return res_ok(opt_none_())
+    r = de_value(M, et, d.j, fr)
+    if is_variant(M, r, 1, 'option.payload'): return r
+    return res_ok(opt_some_(payload(r, 0)[0]))
+
+
+def m_de_enum(M, a, c, fr):
+    d = a[0]; vtype = last_generic(c)[-1]
+    if d.j[0] == 'str' and isinstance(d.j[1], str): acc = EnumAcc(d.j[1], None)
+    elif d.j[0] == 'obj' and len(d.j[1]) == 1: acc = EnumAcc(d.j[1][0][0], d.j[1][0][1])
+    else: return res_err(DE_ERR)
+    return M.run_fn(visitor_fn(M, vtype, 'visit_enum'), [a[3], acc])
+
+
+def m_enum_variant(M, a, c, fr):
+    acc = a[0]; kty = last_generic(c)[-1]
+    r = de_value(M, kty, ('str', acc.tag), fr)
+    if is_variant(M, r, 1, 'enum.variant'): return r
+    return res_ok([payload(r, 0)[0], acc])
+
+
+def m_newtype_variant_de(M, a, c, fr):
+    acc = a[0]; ty = last_generic(c)[-1]
+    if acc.body is None: return res_err(DE_ERR)
+    return de_value(M, ty, acc.body, fr)
+
+
+def m_unit_variant_de(M, a, c, fr):
+    return res_ok([]) if a[0].body is None else res_err(DE_ERR)
+
+
+SERDE_DE_MODELS = [
+    (r"<__D as Deserializer<'_>>::deserialize_struct::<.+>", m_de_struct), (r"<__D as Deserializer<'_>>::deserialize_identifier::<.+>", m_de_identifier),
+    (r"<__D as Deserializer<'_>>::deserialize_enum::<.+>", m_de_enum),
+    (r"<__A as MapAccess<'_>>::next_key::<.+>", m_map_next_key), (r"<__A as MapAccess<'_>>::next_value::<.+>", m_map_next_value),
+    (r"<__A as EnumAccess<'_>>::variant::<.+>", m_enum_variant),
+    (r"<<__A as EnumAccess<'_>>::Variant as VariantAccess<'_>>::newtype_variant::<.+>", m_newtype_variant_de), (r"<<__A as EnumAccess<'_>>::Variant as VariantAccess<'_>>::unit_variant", m_unit_variant_de),
+    (r".*::__private\d*::de::missing_field::<.+>", m_missing_field),
+    (r"<.+ as .*de::Error>::(duplicate_field|unknown_field|unknown_variant|invalid_length|missing_field|custom|invalid_value|invalid_type)(::<.*>)?", lambda M, a, c, fr: DE_ERR),
+    (r"<(u8|u16|u32|u64) as Deserialize<'_>>::deserialize(::<.*>)?", m_de_num), (r"<String as Deserialize<'_>>::deserialize(::<.*>)?", m_de_string),
+    (r"<Vec<.+> as Deserialize<'_>>::deserialize(::<.*>)?", m_de_vec), (r"<(std::option::)?Option<.+> as Deserialize<'_>>::deserialize(::<.*>)?", m_de_option),
+    (r"<PhantomData<.*> as Deserialize<'_>>::deserialize(::<.*>)?", lambda M, a, c, fr: res_ok(None)),
+]
+
+
 # ----------------------------------------------------------------------------- reference document, from the property text
 def ref_doc(M, reg):
     def n(v): return M.concrete(v.len, 'ref.len') if isinstance(v, VecV) else len(v.elems)
@@ -168,9 +322,10 @@ def jshow(m, j):
     return None
 
 
-def body_shape(n, vec_cap, param_cap, template=None, wrong=False):
+def body_shape(n, vec_cap, param_cap, template=None, wrong=False, roundtrip=True):
     def body(M):
-        check_decls(M.decls)
+        M.aux['const_hook'] = lambda M, s: (Tok('const:' + s.split('::')[-1]) if re.search(r'::(FIELDS|VARIANTS)$', s) or '__FieldVisitor' in s or '__Visitor' in s else NotImplemented)
+        check_decls(M.decls, M)
         rb = RegBuilder(n, vec_cap=vec_cap, param_cap=param_cap, template=template, full_ids=True)
         rb.docs = lambda: rb.vec(lambda: rb.tok('doc'), cap=1)
         rb.path = lambda: [rb.vec(lambda: rb.tok('seg'), cap=1)]
@@ -183,6 +338,13 @@ def body_shape(n, vec_cap, param_cap, template=None, wrong=False):
         got = payload(r, 0)[0]
         exp = ref_doc(M, orig)
         d = []; jdiff(got, exp, d)
+        if roundtrip:
+            from lib import v14ref
+            rr = M.call("<PortableRegistry as Deserialize<'_>>::deserialize::<__D>", [JDe(got)])
+            if is_variant(M, rr, 1, 'de.result'): d.append(('round trip: deserialising the produced document fails', z3.BoolVal(True)))
+            else:
+                dd = []; v14ref.struct_diff(orig, payload(rr, 0)[0], z3.BoolVal(True), dd)
+                d += [('round trip: deserialised registry differs at ' + w, c) for w, c in dd]
         if wrong: d = [('WRONG', z3.BoolVal(True))]
         m = M.model(z3.Or([c for _, c in d])) if d else None
         if m is None: M.emit('ok')
@@ -207,9 +369,8 @@ def run(ctx):
     T = ctx.thorough()
     ctx.bounds = {'registry entries': '1 of every kind (all presence / emptiness combinations within the vector bounds), 2 for seeded kind pairs', 'vectors': '<= 2 elements (variants and fields per variant: <= 1); thorough: one more',
                   'ids / array len / variant index': 'full range (symbolic)', 'strings': 'opaque tokens'}
-    ctx.outside = ['ROUND TRIP NOT CLAIMED: Deserialize (visitor machinery of serde) is not executed symbolically; the native replay battery round-trips the law corpus through serde_json as a sanity run only',
-                   'serde_json\'s own text layer (the claim is at the serde data-model level: keys, tags, presence, order-insensitive)', 'arbitrary unicode in strings (strings are opaque)']
-    ctx.assumptions = ['tree-building model of serde::Serializer / SerializeStruct (externally tagged enums as serde_json renders them)']
+    ctx.outside = ['serde_json\'s own text layer (the claim is at the serde data-model level: keys, tags, presence, order-insensitive)', 'arbitrary unicode in strings (strings are opaque)']
+    ctx.assumptions = ['tree-building model of serde::Serializer / SerializeStruct (externally tagged enums as serde_json renders them)', 'tree-walking models of serde::Deserializer / MapAccess / EnumAccess / VariantAccess (self-describing format: structs from maps, missing Option fields are None)']
     cexs = []
     plan = [('kind-%s' % KINDS[k], dict(n=1, vec_cap=(1 if k == 1 else 2) + (1 if T else 0), param_cap=1, template=[{'kind': k}])) for k in range(8)] + [('n0', dict(n=0, vec_cap=1, param_cap=1))]
     rng = ctx.rng
@@ -217,10 +378,10 @@ def run(ctx):
         ks = [rng.randrange(8), rng.randrange(8)]
         plan.append(('n2-%s-%s' % (KINDS[ks[0]], KINDS[ks[1]]), dict(n=2, vec_cap=1, param_cap=0, template=[{'kind': ks[0], 'nparams': 0}, {'kind': ks[1], 'nparams': 0}])))
     for name, kw in plan:
-        h = run_harness(ctx, 'shape-' + name, body_shape(**kw), fs='serde', models=SERDE_MODELS, subst=CODEC_SUBST)
+        h = run_harness(ctx, 'shape-' + name, body_shape(**kw), fs='serde', models=SERDE_MODELS + SERDE_DE_MODELS, subst=CODEC_SUBST)
         c = [r for r in h.results if r['kind'] == 'cex']; cexs += c
         ctx.obligations['JSON document == documented shape: %s (%d paths)' % (name, sum(h.kinds.values()))] = 'sat' if c else 'unsat'
-    hn = run_harness(ctx, 'negative-control', body_shape(1, 1, 1, template=[{'kind': 2}], wrong=True), fs='serde', models=SERDE_MODELS, subst=CODEC_SUBST); ctx.harnesses.pop()
+    hn = run_harness(ctx, 'negative-control', body_shape(1, 1, 1, template=[{'kind': 2}], wrong=True), fs='serde', models=SERDE_MODELS + SERDE_DE_MODELS, subst=CODEC_SUBST); ctx.harnesses.pop()
     if not any(r['kind'] == 'cex' for r in hn.results): raise CheckInconclusive('negative control not refuted')
     seen = set()
     for c in cexs:
@@ -239,4 +400,4 @@ def run(ctx):
     ctx.samples.append({'expected': {'types': [{'id': 'u32', 'type': {'path': ['..omitted if empty'], 'params': [{'name': '..', 'type': 'id | null'}], 'def': {'array': {'len': 'u32', 'type': 'id'}}, 'docs': ['..omitted if empty']}}]}})
     return finish(ctx, 'model_checking',
                   'Bounded symbolic execution of the MIR of the derived Serialize impls (feature serde) with a tree-building Serializer model; per path the produced document is compared with the documented shape '
-                  '(keys, lower-case tags, omissions, transparency), leaves by z3. The round-trip half of C08 is not claimed.')
+                  '(keys, lower-case tags, omissions, transparency), leaves by z3; then the derived Deserialize MIR is executed on that document and must return the original registry.')
